@@ -439,3 +439,27 @@ func replayNamespaces(n *Native, job *Job, v *Violation) (ReplayResult, bool) {
 	return ReplayResult{Cmd: "ti ./a.rb on the top-level and on the module-wrapped program", Reproduced: nb != outA,
 		Observed: fmt.Sprintf("top level reports %q; wrapped (rows shifted back, Mm:: removed) reports %q", outA, nb)}, true
 }
+
+// replaySuggest re-judges C23 counterexamples natively.
+func replaySuggest(n *Native, job *Job, v *Violation) (ReplayResult, bool) {
+	if v.Kind != "assert" {
+		return ReplayResult{}, false
+	}
+	src := v.Witness["src"]
+	conc, okc := concretizeSym(src, v.Witness)
+	if !okc {
+		return ReplayResult{Observed: "cannot make the skeleton concrete"}, true
+	}
+	args := append([]string{"./a.rb"}, strings.Fields(v.Witness["flags"])...)
+	out, _, _ := n.RunTi(map[string]string{"a.rb": conc}, args, nativeConfigFor(n, job, src))
+	v.Witness["native-program"] = conc
+	res := ReplayResult{Cmd: "ti " + strings.Join(args, " ")}
+	if m, ok := v.Witness[v.ID+".must"]; ok {
+		res.Reproduced = !hasLine(out, "%"+m+":::", "")
+		res.Observed = fmt.Sprintf("method %q must be listed; native lists %d lines", m, strings.Count(out, "\n"))
+	} else if m, ok := v.Witness[v.ID+".mustnot"]; ok {
+		res.Reproduced = hasLine(out, "%"+m+":::", "")
+		res.Observed = fmt.Sprintf("method %q must not be listed", m)
+	}
+	return res, true
+}
